@@ -53,6 +53,10 @@ def instances(tier, seed):
     for s in seqs:
         out.append({'kind': 'seq', 'lens': s})
     out.append({'kind': 'list', 'cmds': 1}); out.append({'kind': 'list', 'cmds': 2})
+    # the line terminator is added by send / list rendering: exactly one LF per command reaches the transport, also under short writes
+    for flav in ('sync', 'async'):
+        out.append({'kind': 'send', 'n': 1, 'flav': flav, 'single': True})
+        out.append({'kind': 'send', 'n': 2, 'flav': flav})
     if tier != 'quick':
         out.append({'kind': 'list', 'cmds': 3})
     return out
@@ -60,7 +64,7 @@ def instances(tier, seed):
 def bounds(tier):
     return {'quick': 'command names: every length 0..8 and 12,13,16,18,21,22 with all bytes symbolic (0x00..0xff read as Latin-1/ASCII '
                      'restricted to < 0x80) plus names of length 1..3 with one symbolic 2-byte scalar; add_argument sequences of 1..3 calls on '
-                     'one command, renderer output 0..3 arbitrary bytes (0x00..0xff) per call, fresh on every invocation; lists of 1 and 2 commands',
+                     'one command, renderer output 0..3 arbitrary bytes (0x00..0xff) per call, fresh on every invocation; lists of 1 and 2 commands; one command / a list of two sent through Connection::send(_list) and AsyncConnection::send(_list) over a transport accepting all / 1 / 5 bytes per write',
             'thorough': 'names of every length 0..24 (+ one 2-byte scalar at every position for lengths 1..5); add_argument sequences: 1 call 0..4 '
                         'bytes, 2 calls 0..3 bytes each, 3 calls 0..2 bytes each; lists of 1..3 commands'}[tier]
 
@@ -76,6 +80,9 @@ def run_instance(payload):
         run_name(P, res, payload)
     elif kind == 'seq':
         run_seq(P, res, payload)
+    elif kind == 'send':
+        from props import c13
+        c13.run_send(P, res, payload)
     else:
         run_list(P, res, payload)
     res.wall_s = time.time() - t0
@@ -253,6 +260,9 @@ def run_list(P, res, payload):
 # ---------------------------------------------------------------------------- native replay
 def replay(rec):
     inp = rec.get('input') or rec
+    if inp['kind'] == 'send':
+        from props import c13
+        return c13.replay(rec)
     if inp['kind'] == 'name':
         name = unhex(inp['name'])
         try:
